@@ -8,6 +8,7 @@ import (
 	"time"
 
 	"github.com/zeromicro/go-zero/core/collection"
+	"github.com/zeromicro/go-zero/core/syncx"
 
 	"verifsim/simrt"
 )
@@ -29,31 +30,96 @@ type takeRec struct {
 	client, key int
 	call, ret   int64
 	tCall, tRet time.Duration
-	val         int
-	err         error
-	loads       []*loadRec
+	// flight: the instant this Take entered the cache's SingleFlight barrier (0: it never did:
+	// first lookup hit); observed by flightSpy, stamped before the call is delegated
+	flight  int64
+	tFlight time.Duration
+	flights int
+	val     int
+	err     error
+	loads   []*loadRec
+}
+
+// cacheShared is what the caches of one run have in common: one logical clock
+// and one source of values, so that every value is unique across all caches.
+type cacheShared struct {
+	clk     int64
+	nextVal int
 }
 
 type cacheWorld struct {
 	r       *simrt.Run
+	sh      *cacheShared
+	id      int
 	c       *collection.Cache
 	limit   int
 	expire  time.Duration
 	created time.Duration
-	clk     int64
-	nextVal int
 	ops     []cOp
 	takes   []*takeRec
+	// inTake: the Take each task is currently inside (key: task id), for flightSpy
+	inTake map[int]*takeRec
+	// mine: every value handed to THIS cache (Set, SetWithExpire, results of loaders of its Takes)
+	mine map[int]bool
+	// longest expiry of any store issued on this cache
+	maxExpire time.Duration
 }
 
-func (w *cacheWorld) tick() int64 { w.clk++; return w.clk }
+func (w *cacheWorld) tick() int64 { w.sh.clk++; return w.sh.clk }
+
+func (w *cacheWorld) newVal() int {
+	w.sh.nextVal++
+	w.mine[w.sh.nextVal] = true
+	return w.sh.nextVal
+}
 
 func key(k int) string { return fmt.Sprintf("k%d", k) }
 
+// flightSpy is a pass-through around the cache's barrier that records the
+// instant at which a Take enters it.  The yield stands for a preemption between
+// Take's first lookup and the barrier (there is no synchronisation operation in
+// between); recording happens after it and before the call is delegated.
+type flightSpy struct {
+	w     *cacheWorld
+	inner syncx.SingleFlight
+}
+
+func (f *flightSpy) enter() {
+	w := f.w
+	w.r.Yield()
+	tr := w.inTake[w.r.CurrentID()]
+	if tr == nil {
+		return
+	}
+	tr.flights++
+	if tr.flights == 1 {
+		tr.flight = w.tick()
+		tr.tFlight = w.r.Elapsed()
+		w.r.Ev("flight", int64(tr.client), int64(tr.key))
+	}
+}
+
+func (f *flightSpy) Do(key string, fn func() (any, error)) (any, error) {
+	f.enter()
+	return f.inner.Do(key, fn)
+}
+
+func (f *flightSpy) DoEx(key string, fn func() (any, error)) (any, bool, error) {
+	f.enter()
+	return f.inner.DoEx(key, fn)
+}
+
 func newCacheWorld(r *simrt.Run, limit int, expire time.Duration) *cacheWorld {
+	return newCacheWorldIn(r, &cacheShared{}, 0, limit, expire, "")
+}
+
+func newCacheWorldIn(r *simrt.Run, sh *cacheShared, id, limit int, expire time.Duration, name string) *cacheWorld {
 	var opts []collection.CacheOption
 	if limit > 0 {
 		opts = append(opts, collection.WithLimit(limit))
+	}
+	if name != "" {
+		opts = append(opts, collection.WithName(name))
 	}
 	c, err := collection.NewCache(expire, opts...)
 	if err != nil {
@@ -61,7 +127,20 @@ func newCacheWorld(r *simrt.Run, limit int, expire time.Duration) *cacheWorld {
 		return nil
 	}
 	r.MarkBackground(func(name string) bool { return strings.Contains(name, "collection/") })
-	return &cacheWorld{r: r, c: c, limit: limit, expire: expire, created: r.Elapsed()}
+	w := &cacheWorld{r: r, sh: sh, id: id, c: c, limit: limit, expire: expire, created: r.Elapsed(),
+		inTake: map[int]*takeRec{}, mine: map[int]bool{}, maxExpire: expire}
+	collection.VerifWrapCacheBarrier(c, func(inner syncx.SingleFlight) syncx.SingleFlight {
+		return &flightSpy{w: w, inner: inner}
+	})
+	return w
+}
+
+// timingObservable: the upper bound on an entry's life (upperLife) assumes that the cache's
+// timer goroutines get to run; it is not asserted in runs whose fault mix parks tasks inside
+// real code for up to 2 s of virtual time (each such stall of the wheel goroutine loses ticks).
+func timingObservable(r *simrt.Run) bool {
+	c := r.Cfg()
+	return c.StallPerMille == 0 || c.StallMax <= 50*time.Millisecond
 }
 
 func (w *cacheWorld) record(client int, in cIn, out cOut, call, ret int64) {
@@ -84,8 +163,10 @@ func (w *cacheWorld) get(client, k int) {
 }
 
 func (w *cacheWorld) set(client, k int, expire time.Duration) {
-	w.nextVal++
-	v := w.nextVal
+	v := w.newVal()
+	if expire > w.maxExpire {
+		w.maxExpire = expire
+	}
 	in := cIn{kind: cSet, key: k, val: v, tCall: w.r.Elapsed()}
 	call := w.tick()
 	w.r.Ev("set", int64(client), int64(k), int64(v), int64(expire))
@@ -126,6 +207,9 @@ func (w *cacheWorld) take(client, k int, fail bool, loadYields int, loadSleep ti
 	w.takes = append(w.takes, tr)
 	tr.call = w.tick()
 	w.r.Ev("take", int64(client), int64(k))
+	tid := w.r.CurrentID()
+	w.inTake[tid] = tr
+	defer delete(w.inTake, tid)
 	v, err := w.c.Take(key(k), func() (any, error) {
 		l := &loadRec{key: k, start: w.tick(), tStart: w.r.Elapsed()}
 		tr.loads = append(tr.loads, l)
@@ -137,8 +221,7 @@ func (w *cacheWorld) take(client, k int, fail bool, loadYields int, loadSleep ti
 		if fail {
 			l.err = fmt.Errorf("load-error-%d", l.start)
 		} else {
-			w.nextVal++
-			l.val = w.nextVal
+			l.val = w.newVal()
 		}
 		l.tEnd = w.r.Elapsed()
 		l.end = w.tick()
@@ -161,12 +244,16 @@ func (w *cacheWorld) take(client, k int, fail bool, loadYields int, loadSleep ti
 }
 
 // history turns the recorded calls into model operations.  A Take that ran its
-// loader is a lookup miss (between its invocation and the start of the loader)
-// followed, when the loader succeeded, by a Set (between the end of the loader
-// and the return).  A Take that did not run its loader is a hit, unless another
-// overlapping Take of the same key returned the same result, in which case it
-// may also have shared that call's result (SingleFlight) without touching the cache.
-func (w *cacheWorld) history() ([]cOp, bool) {
+// loader is a lookup miss followed, when the loader succeeded, by a Set (between
+// the end of the loader and the return).  The miss that justifies the loader run
+// lies between the Take's ENTRY INTO THE FLIGHT (the barrier exists to collapse
+// concurrent misses: whoever leads a flight looks again before loading) and the
+// start of the loader; with loose=true it may lie anywhere between the invocation
+// and the start of the loader (only used to name a failing history).  A Take
+// that did not run its loader is a hit, unless another overlapping Take of the
+// same key ON THE SAME cache returned the same result, in which case it may also
+// have shared that call's result (SingleFlight) without touching the cache.
+func (w *cacheWorld) history(loose bool) ([]cOp, bool) {
 	r := w.r
 	ops := append([]cOp{}, w.ops...)
 	overlap := func(a, b *takeRec) bool { return a.call < b.ret && b.call < a.ret }
@@ -177,8 +264,12 @@ func (w *cacheWorld) history() ([]cOp, bool) {
 		}
 		if len(tr.loads) == 1 {
 			l := tr.loads[0]
-			ops = append(ops, cOp{client: tr.client, call: tr.call, ret: l.start, out: cOut{ok: false},
-				in: cIn{kind: cGet, key: tr.key, tCall: tr.tCall, tRet: l.tStart, fromLoader: true}})
+			from, tFrom := tr.call, tr.tCall
+			if !loose && tr.flight > 0 && tr.flight < l.start {
+				from, tFrom = tr.flight, tr.tFlight
+			}
+			ops = append(ops, cOp{client: tr.client, call: from, ret: l.start, out: cOut{ok: false},
+				in: cIn{kind: cGet, key: tr.key, tCall: tFrom, tRet: l.tStart, fromLoader: true}})
 			if l.err != nil {
 				if !errors.Is(tr.err, l.err) {
 					r.Fail("cache-take-result", "Take(k%d) returned (%v, %v) although its own loader failed with %v", tr.key, tr.val, tr.err, l.err)
@@ -209,15 +300,22 @@ func (w *cacheWorld) history() ([]cOp, bool) {
 		}
 		if tr.err != nil {
 			if !shared {
-				r.Fail("cache-take-result", "Take(k%d) returned error %v without running its loader and no overlapping Take produced that error", tr.key, tr.err)
+				r.Fail("cache-take-result", "cache #%d: Take(k%d) returned error %v without running its loader and no overlapping Take of that key on this cache produced that error", w.id, tr.key, tr.err)
 				return nil, false
 			}
 			continue
 		}
+		if !w.mine[tr.val] {
+			r.Fail("cache-take-value-never-stored-in-this-cache", "cache #%d: Take(k%d) returned %d without running its loader; that value was never set into this cache nor produced by a loader of one of its Takes",
+				w.id, tr.key, tr.val)
+			return nil, false
+		}
 		kind := cGet
 		if shared {
 			kind = cMaybeGet
-			r.Probe("cache-take-possibly-shared")
+			if !loose {
+				r.Probe("cache-take-possibly-shared")
+			}
 		}
 		ops = append(ops, cOp{client: tr.client, call: tr.call, ret: tr.ret, out: cOut{val: tr.val, ok: true},
 			in: cIn{kind: kind, key: tr.key, tCall: tr.tCall, tRet: tr.tRet}})
@@ -258,6 +356,11 @@ func cacheSequential(r *simrt.Run, tier string) {
 	}
 	lastSet := make([]last, nKeys)
 	var script []string
+	note := func(sl time.Duration, what string, k int) {
+		if r.Tracing() {
+			script = append(script, fmt.Sprintf("+%v %s k%d @%v", sl, what, k, r.Elapsed()))
+		}
+	}
 	for i := 0; i < nOps; i++ {
 		// time advance
 		var sl time.Duration
@@ -275,16 +378,18 @@ func cacheSequential(r *simrt.Run, tier string) {
 			d := r.Elapsed() - w.created
 			sl = time.Second - d%time.Second + time.Duration(t.Intn(3)-1)
 			r.Probe("cache-op-at-tick-instant")
-		case 6, 7:
-			// relative to the life of an entry: just inside the guaranteed life, or around its expiry
+		case 6, 7, 9:
+			// relative to the life of an entry: just inside the guaranteed life, around its expiry,
+			// or just past the latest instant at which it may still be there
 			k := t.Intn(nKeys)
 			if lastSet[k].set {
 				age := r.Elapsed() - lastSet[k].at
 				var target time.Duration
-				if adv == 6 {
+				switch adv {
+				case 6:
 					target = guaranteedLife(lastSet[k].expire) - 1
 					r.Probe("cache-op-at-end-of-guaranteed-life")
-				} else {
+				case 7:
 					target = lastSet[k].expire * time.Duration(t.Range(90, 110)) / 100
 					if t.Bool() {
 						// on the tick grid
@@ -292,6 +397,9 @@ func cacheSequential(r *simrt.Run, tier string) {
 						target += time.Second - abs%time.Second
 					}
 					r.Probe("cache-op-around-expiry")
+				default:
+					target = upperLife(lastSet[k].expire) + 1 + time.Duration(t.Range(0, 2000))*time.Millisecond
+					r.Probe("cache-op-past-latest-expiry")
 				}
 				if target > age {
 					sl = target - age
@@ -305,7 +413,7 @@ func cacheSequential(r *simrt.Run, tier string) {
 		}
 		k := t.Intn(nKeys)
 		var what string
-		switch v := t.Intn(20); {
+		switch v := t.Intn(23); {
 		case v < 7:
 			w.get(0, k)
 			what = "Get"
@@ -330,13 +438,58 @@ func cacheSequential(r *simrt.Run, tier string) {
 				lastSet[k] = last{at: r.Elapsed(), expire: expire, set: true}
 			}
 			what = fmt.Sprintf("Take(fail=%v)", fail)
-		default:
+		case v < 20:
 			w.length(0)
 			what = "Len"
+		default:
+			// an entry overwritten while it is live (other value, other expiry), then the clock
+			// moves past the latest instant the refreshed entry may still be there: it must be gone
+			if r.Elapsed() > maxCacheVirtual {
+				w.get(0, k)
+				what = "Get"
+				break
+			}
+			pick := func() time.Duration { // 0: Set with the cache's default expiry
+				if t.Bool() {
+					return entryExpires[t.Intn(len(entryExpires))]
+				}
+				return 0
+			}
+			eff := func(e time.Duration) time.Duration {
+				if e == 0 {
+					return expire
+				}
+				return e
+			}
+			e1 := pick()
+			w.set(0, k, e1)
+			note(sl, fmt.Sprintf("scenario: set(%v)", eff(e1)), k)
+			gap := time.Duration(t.Range(0, 2000)) * time.Millisecond
+			if g := guaranteedLife(eff(e1)) / 2; gap > g {
+				gap = g
+			}
+			if gap > 0 {
+				r.Sleep(gap)
+			}
+			e2 := pick()
+			if eff(e2) == eff(e1) {
+				e2 = entryExpires[(t.Intn(len(entryExpires)-1)+1)%len(entryExpires)]
+			}
+			w.set(0, k, e2)
+			note(gap, fmt.Sprintf("scenario: overwrite(%v)", eff(e2)), k)
+			if t.Chance(1, 4) {
+				// used in between: a hit must not prolong the entry's life
+				r.Sleep(time.Duration(t.Range(0, 900)) * time.Millisecond)
+				w.get(0, k)
+			}
+			sl = upperLife(eff(e2)) + 1 + time.Duration(t.Range(0, 3000))*time.Millisecond
+			r.Sleep(sl)
+			w.get(0, k)
+			lastSet[k] = last{at: r.Elapsed() - sl, expire: eff(e2), set: true}
+			r.Probe("cache-overwrite-then-expire")
+			what = "scenario: Get past the refreshed deadline"
 		}
-		if r.Tracing() {
-			script = append(script, fmt.Sprintf("+%v %s k%d @%v", sl, what, k, r.Elapsed()))
-		}
+		note(sl, what, k)
 	}
 	// final observation of everything
 	w.length(0)
@@ -348,7 +501,7 @@ func cacheSequential(r *simrt.Run, tier string) {
 		r.Logf("cache(sequential) limit=%d expire=%v keys=%d: %v", limit, expire, nKeys, script)
 	}
 	r.Sample(map[string]any{"component": "Cache(single client)", "limit": limit, "expire": expire.String(), "keys": nKeys, "ops": nOps, "virtual": r.Elapsed().String()})
-	ops, ok := w.history()
+	ops, ok := w.history(false)
 	if !ok {
 		return
 	}
@@ -362,6 +515,25 @@ func cacheSequential(r *simrt.Run, tier string) {
 	strict := &cacheModel{limit: limit}
 	i, before := strict.checkSequential(ops)
 	if i < 0 {
+		// nothing went away early or came from nowhere; did everything go away in time?
+		if !timingObservable(r) {
+			r.Probe("cache-upper-bound-not-asserted-stalls")
+			return
+		}
+		r.Probe("cache-upper-bound-asserted")
+		up := &cacheModel{limit: limit, upper: true}
+		if j, bef := up.checkSequential(ops); j >= 0 {
+			cls, why := outlivesClass, ""
+			marked := append([]cOp{}, ops...)
+			markMayLoseTimer(marked)
+			rel := &cacheModel{limit: limit, upper: true, upperRelaxed: true}
+			if jj, _ := rel.checkSequential(marked); jj < 0 {
+				cls = neverExpiresAfterExpiry
+				why = "; the entry (or the entry it overwrote) was stored at an instant at which the timer of the key's previous entry may have been firing: that entry's expiry task deletes the data and removes the key's timer in two steps, a store in between loses its fresh timer"
+			}
+			r.Fail(cls, "single client, limit=%d expire=%v: operation #%d %v (invoked at %v) still finds an entry whose age since the return of its last store exceeds 1.05 x expire + 3 s%s; model states before it (entries past that age already removed): %v\nhistory:%s",
+				limit, expire, j, ops[j], ops[j].in.tCall, why, bef, describeOps(ops[:j+1]))
+		}
 		return
 	}
 	for _, lvl := range []int{1, 2, 4} { // level 3 needs a second client
@@ -380,6 +552,201 @@ func describeFailure(limit int, ops []cOp, i int, before []cState) string {
 	return desc + "\nhistory:" + describeOps(ops[:i+1])
 }
 
+// cachePlanOp is one step of a client of a concurrent cache workload.
+type cachePlanOp struct {
+	cache     int
+	kind      int // 0 get 1 set 2 del 3 take 4 len
+	key       int
+	think     time.Duration
+	expire    time.Duration // kind 1: > 0 = SetWithExpire
+	fail      bool
+	loadYield int
+	loadSleep time.Duration
+}
+
+func runCacheClients(r *simrt.Run, worlds []*cacheWorld, plans [][]cachePlanOp) bool {
+	var tasks []*simrt.Task
+	for c := range plans {
+		c := c
+		tasks = append(tasks, r.Go(fmt.Sprintf("client%d", c), func() {
+			for _, o := range plans[c] {
+				if o.think > 0 {
+					r.Sleep(o.think)
+				}
+				w := worlds[o.cache]
+				switch o.kind {
+				case 0:
+					w.get(c, o.key)
+				case 1:
+					w.set(c, o.key, o.expire)
+				case 2:
+					w.del(c, o.key)
+				case 3:
+					w.take(c, o.key, o.fail, o.loadYield, o.loadSleep)
+				default:
+					w.length(c)
+				}
+			}
+		}))
+	}
+	if !r.JoinTimeout(6*time.Hour, tasks...) {
+		r.Fail("cache-stuck", "Cache clients did not all return: %v", r.AliveTasks())
+		return false
+	}
+	return true
+}
+
+// allGoneAfterIdle: after every client returned, a quiescence and an idle period longer than the
+// latest possible expiry of anything ever stored, every cache must be empty.
+func allGoneAfterIdle(r *simrt.Run, worlds []*cacheWorld, nKeys int) bool {
+	if !timingObservable(r) {
+		r.Probe("cache-upper-bound-not-asserted-stalls")
+		return true
+	}
+	var idle time.Duration
+	for _, w := range worlds {
+		if u := upperLife(w.maxExpire); u > idle {
+			idle = u
+		}
+	}
+	idle += time.Second
+	r.Quiesce()
+	done := r.Elapsed()
+	r.Sleep(idle)
+	r.Quiesce()
+	r.Probe("cache-upper-bound-asserted")
+	for _, w := range worlds {
+		n := collection.VerifCacheLen(w.c)
+		var left []string
+		cls := ""
+		for k := 0; k < nKeys; k++ {
+			if v, ok := w.c.Get(key(k)); ok {
+				left = append(left, fmt.Sprintf("k%d=%v", k, v))
+				if c := w.outlivesClass(k); cls == "" || c == outlivesClass {
+					cls = c
+				}
+			}
+		}
+		if len(left) == 0 && n == 0 {
+			continue
+		}
+		if cls == "" {
+			cls = outlivesClass
+		}
+		ops, _ := w.history(true)
+		r.Fail(cls, "cache #%d (limit=%d expire=%v, longest expiry of any store %v): all clients had returned at %v, the cache was then left alone for %v (longer than 1.05 x the longest expiry + 3 s) and still holds %d entries, Get finds %v:%s",
+			w.id, w.limit, w.expire, w.maxExpire, done, idle, n, left, describeOps(ops))
+		return false
+	}
+	return true
+}
+
+// outlivesClass names a history in which key k was still there after the final idle period.
+// Two ways in which the unchanged cache loses the TIMER of a live entry are recognised by
+// features of the history (both are the two-step "delete data, then remove the key's timer" of
+// Cache.Del meeting a store in between); any other history gets the generic class.
+func (w *cacheWorld) outlivesClass(k int) string {
+	ops, ok := w.history(true)
+	if !ok {
+		return outlivesClass
+	}
+	for _, d := range ops {
+		if d.in.kind != cDel || d.in.key != k {
+			continue
+		}
+		for _, s := range ops {
+			if s.in.kind == cSet && s.in.key == k && s.client != d.client && s.call < d.ret && d.call < s.ret {
+				return neverExpiresAfterDel
+			}
+		}
+	}
+	markMayLoseTimer(ops)
+	for _, s := range ops {
+		if s.in.kind == cSet && s.in.key == k && s.in.mayLoseTimer {
+			return neverExpiresAfterExpiry
+		}
+	}
+	return outlivesClass
+}
+
+const racingStoresClass = "cache-value-expires-with-timer-of-overlapping-set-of-same-key"
+
+func shorterExpiryOfRacingStores(ops []cOp) ([]cOp, bool) {
+	alt := append([]cOp{}, ops...)
+	changed := false
+	for i := range alt {
+		s := &alt[i]
+		if s.in.kind != cSet {
+			continue
+		}
+		for _, o := range ops {
+			if o.in.kind == cSet && o.in.key == s.in.key && o.client != s.client && o.call < s.ret && s.call < o.ret && o.in.expire < s.in.expire {
+				s.in.expire = o.in.expire
+				changed = true
+			}
+		}
+	}
+	return alt, changed
+}
+
+// judgeConcurrent decides the concurrent history of one cache.
+func judgeConcurrent(r *simrt.Run, w *cacheWorld, who string) bool {
+	limit, expire := w.limit, w.expire
+	ops, ok := w.history(false)
+	if !ok {
+		return false
+	}
+	r.Probe("oracle")
+	switch checkCacheHistory(limit, 0, ops) {
+	case linUnknown:
+		r.Probe("porcupine-unknown")
+	case linIllegal:
+		for lvl := 1; lvl <= 4; lvl++ {
+			switch checkCacheHistory(limit, lvl, ops) {
+			case linOK:
+				r.Fail(relaxedClass[lvl], "%s, limit=%d expire=%v: the history is only explained if %s:%s", who, limit, expire, relaxedWhat[lvl], describeOps(ops))
+				return false
+			case linUnknown:
+				r.Probe("porcupine-unknown")
+				return true
+			}
+		}
+		// two stores of one key by different clients overlap and carry different expiries: Set stores the
+		// value under the lock and arms/moves the key's timer afterwards, so the value of one call can end
+		// up with the timer of the other.  Recognised by giving each such store the shorter of the expiries.
+		if alt, changed := shorterExpiryOfRacingStores(ops); changed {
+			for lvl := 0; lvl <= 4; lvl++ {
+				res := checkCacheHistory(limit, lvl, alt)
+				if res == linUnknown {
+					break
+				}
+				if res == linOK {
+					r.Fail(racingStoresClass, "%s, limit=%d expire=%v: a value disappeared before the expiry it was stored with; the history is only explained if a store that overlapped another client's store of the same key with a shorter expiry got that other store's timer (value of one call, expiry of the other):%s",
+						who, limit, expire, describeOps(ops))
+					return false
+				}
+			}
+		}
+		// is the only thing wrong the instant of a lookup miss that justifies a loader run?
+		if loose, ok := w.history(true); ok {
+			for lvl := 0; lvl <= 4; lvl++ {
+				res := checkCacheHistory(limit, lvl, loose)
+				if res == linUnknown {
+					break
+				}
+				if res == linOK {
+					r.Fail("cache-take-loader-after-completed-store", "%s, limit=%d expire=%v: a Take ran its loader although, when it entered the cache's single-flight barrier, the key had been stored by a call that completed after the Take was invoked and nothing can have removed it since (no Del, no possible eviction, far from expiry): the lookup miss that justifies a loader run must lie between the entry into the flight and the loader start:%s",
+						who, limit, expire, describeOps(ops))
+					return false
+				}
+			}
+		}
+		r.Fail("cache-nonlinearizable", "%s, limit=%d expire=%v: no linearization of the history is a behaviour of an LRU cache with expiry:%s", who, limit, expire, describeOps(ops))
+		return false
+	}
+	return true
+}
+
 func cacheConcurrent(r *simrt.Run, tier string) {
 	t := r.Tape
 	maxC, maxP := 3, 6
@@ -394,18 +761,10 @@ func cacheConcurrent(r *simrt.Run, tier string) {
 	nKeys := t.Range(1, 3)
 	limit := t.Intn(4)
 	expire := []time.Duration{10 * time.Second, 5 * time.Second, 30 * time.Second, 60 * time.Second}[t.Intn(4)]
-	type op struct {
-		kind      int // 0 get 1 set 2 del 3 take 4 len
-		key       int
-		think     time.Duration
-		fail      bool
-		loadYield int
-		loadSleep time.Duration
-	}
-	plans := make([][]op, clients)
+	plans := make([][]cachePlanOp, clients)
 	for c := range plans {
 		for j := 0; j < perClient; j++ {
-			o := op{key: t.Intn(nKeys)}
+			o := cachePlanOp{key: t.Intn(nKeys)}
 			switch t.Intn(8) {
 			case 5:
 				o.think = time.Duration(t.Range(1, 50)) * time.Millisecond
@@ -443,53 +802,132 @@ func cacheConcurrent(r *simrt.Run, tier string) {
 	if w == nil {
 		return
 	}
-	var tasks []*simrt.Task
-	for c := 0; c < clients; c++ {
-		c := c
-		tasks = append(tasks, r.Go(fmt.Sprintf("client%d", c), func() {
-			for _, o := range plans[c] {
-				if o.think > 0 {
-					r.Sleep(o.think)
+	if !runCacheClients(r, []*cacheWorld{w}, plans) {
+		return
+	}
+	if !allGoneAfterIdle(r, []*cacheWorld{w}, nKeys) {
+		return
+	}
+	judgeConcurrent(r, w, fmt.Sprintf("%d clients", clients))
+}
+
+// cacheMulti: two (sometimes three) caches built the default way (sometimes with distinct
+// names) in one process, the same small key set on all of them, values unique across caches,
+// clients whose Takes on different caches overlap.  Every cache is judged on its own history by
+// its own model: what happens on one cache must not show on another.
+func cacheMulti(r *simrt.Run, tier string) {
+	t := r.Tape
+	nCaches := 2
+	if t.Chance(1, 4) {
+		nCaches = 3
+	}
+	named := t.Chance(1, 3)
+	maxC, maxP := 3, 6
+	if tier == "thorough" {
+		maxC, maxP = 4, 8
+	}
+	clients := t.Range(2, maxC)
+	perClient := t.Range(1, maxP)
+	for clients*perClient > 24 {
+		perClient--
+	}
+	nKeys := t.Range(1, 2)
+	limit := t.Intn(3)
+	expire := []time.Duration{10 * time.Second, 5 * time.Second, 30 * time.Second, 60 * time.Second}[t.Intn(4)]
+	// storm: every client starts with a Take of the same key at the same instant (on one cache, or
+	// spread over the caches), so that flights have followers while the other operations go on
+	storm, stormAcross := t.Chance(1, 3), false
+	if storm {
+		stormAcross = t.Bool()
+	}
+	plans := make([][]cachePlanOp, clients)
+	for c := range plans {
+		for j := 0; j < perClient; j++ {
+			o := cachePlanOp{key: t.Intn(nKeys), cache: t.Intn(nCaches)}
+			if storm && j == 0 {
+				o = cachePlanOp{kind: 3, loadYield: t.Intn(4)}
+				if stormAcross {
+					o.cache = c % nCaches
 				}
-				switch o.kind {
-				case 0:
-					w.get(c, o.key)
-				case 1:
-					w.set(c, o.key, 0)
-				case 2:
-					w.del(c, o.key)
-				case 3:
-					w.take(c, o.key, o.fail, o.loadYield, o.loadSleep)
-				default:
-					w.length(c)
+				if t.Bool() {
+					o.loadSleep = time.Duration(t.Range(1, 1500)) * time.Millisecond
 				}
+				plans[c] = append(plans[c], o)
+				continue
 			}
-		}))
+			switch t.Intn(10) {
+			case 6:
+				o.think = time.Duration(t.Range(1, 50)) * time.Millisecond
+			case 7:
+				o.think = time.Duration(t.Range(1, 1500)) * time.Millisecond
+			case 8:
+				o.think = time.Duration(t.Range(1, 4)) * time.Second
+			case 9:
+				o.think = time.Duration(int(expire/time.Second)*t.Range(80, 120)/100) * time.Second
+			}
+			switch v := t.Intn(20); {
+			case v < 10:
+				o.kind = 3
+				o.fail = t.Chance(1, 5)
+				o.loadYield = t.Intn(4)
+				if t.Chance(1, 2) {
+					o.loadSleep = time.Duration(t.Range(1, 1500)) * time.Millisecond
+				}
+			case v < 13:
+				o.kind = 0
+			case v < 16:
+				o.kind = 1
+				if t.Chance(1, 4) {
+					o.expire = []time.Duration{20 * time.Second, 2 * time.Second, 90 * time.Second}[t.Intn(3)]
+				}
+			case v < 18:
+				o.kind = 2
+			default:
+				o.kind = 4
+			}
+			plans[c] = append(plans[c], o)
+		}
 	}
-	if !r.JoinTimeout(6*time.Hour, tasks...) {
-		r.Fail("cache-stuck", "Cache clients did not all return: %v", r.AliveTasks())
+	if r.Tracing() {
+		r.Logf("cache(multi) caches=%d named=%v storm=%v clients=%d keys=%d limit=%d expire=%v plans=%+v", nCaches, named, storm, clients, nKeys, limit, expire, plans)
+	}
+	r.Sample(map[string]any{"component": "Cache(several caches, concurrent)", "caches": nCaches, "distinct_names": named, "clients": clients, "keys": nKeys, "limit": limit,
+		"expire": expire.String(), "ops_per_client": perClient, "first_client_plan": fmt.Sprintf("%+v", plans[0])})
+	sh := &cacheShared{}
+	var worlds []*cacheWorld
+	for i := 0; i < nCaches; i++ {
+		name := ""
+		if named {
+			name = fmt.Sprintf("cache-%d", i)
+		}
+		w := newCacheWorldIn(r, sh, i, limit, expire, name)
+		if w == nil {
+			return
+		}
+		worlds = append(worlds, w)
+	}
+	if !runCacheClients(r, worlds, plans) {
 		return
 	}
-	ops, ok := w.history()
-	if !ok {
-		return
-	}
-	r.Probe("oracle")
-	switch checkCacheHistory(limit, 0, ops) {
-	case linUnknown:
-		r.Probe("porcupine-unknown")
-	case linIllegal:
-		for lvl := 1; lvl <= 4; lvl++ {
-			switch checkCacheHistory(limit, lvl, ops) {
-			case linOK:
-				r.Fail(relaxedClass[lvl], "%d clients, limit=%d expire=%v: the history is only explained if %s:%s", clients, limit, expire, relaxedWhat[lvl], describeOps(ops))
-				return
-			case linUnknown:
-				r.Probe("porcupine-unknown")
-				return
+	// did Takes of one key on two different caches overlap?
+	for i, a := range worlds {
+		for _, b := range worlds[i+1:] {
+			for _, x := range a.takes {
+				for _, y := range b.takes {
+					if x.key == y.key && x.call < y.ret && y.call < x.ret && len(x.loads)+len(y.loads) > 0 {
+						r.Probe("cache-multi-takes-overlap-across-caches")
+					}
+				}
 			}
 		}
-		r.Fail("cache-nonlinearizable", "%d clients, limit=%d expire=%v: no linearization of the history is a behaviour of an LRU cache with expiry:%s", clients, limit, expire, describeOps(ops))
+	}
+	if !allGoneAfterIdle(r, worlds, nKeys) {
+		return
+	}
+	for _, w := range worlds {
+		if !judgeConcurrent(r, w, fmt.Sprintf("cache #%d of %d (distinct names: %v), %d clients", w.id, nCaches, named, clients)) {
+			return
+		}
 	}
 }
 
